@@ -71,6 +71,7 @@ var OverlappingFieldsCanBeMergedRule = Rule{
 
 		m := &overlappingFieldsCanBeMergedManager{
 			comparedFragmentPairs: pairSet{data: make(map[string]map[string]bool)},
+			comparingFields:       make(map[fieldPair]bool),
 		}
 
 		observers.OnOperation(func(walker *Walker, operation *ast.OperationDefinition) {
@@ -239,6 +240,14 @@ type overlappingFieldsCanBeMergedManager struct {
 	// per walker
 	comparedFragmentPairs pairSet
 	// cachedFieldsAndFragmentNames interface{}
+
+	// the pairs of fields whose sub-selections are being compared right now
+	comparingFields map[fieldPair]bool
+}
+
+type fieldPair struct {
+	fieldA, fieldB       *ast.Field
+	areMutuallyExclusive bool
 }
 
 func (m *overlappingFieldsCanBeMergedManager) findConflictsWithinSelectionSet(selectionSet ast.SelectionSet) []*ConflictMessage {
@@ -464,7 +473,17 @@ func (m *overlappingFieldsCanBeMergedManager) findConflict(parentFieldsAreMutual
 	// Collect and compare sub-fields. Use the same "visited fragment names" list
 	// for both collections so fields in a fragment reference are never
 	// compared to themselves.
+	//
+	// Through a cycle of fragments the sub-fields can lead back to this very pair of fields
+	// (fragment F on T { a { ...F } a { a { ...F } } }): the comparison already in progress
+	// covers it, and starting it again would never end.
+	pair := fieldPair{fieldA, fieldB, areMutuallyExclusive}
+	if m.comparingFields[pair] {
+		return nil
+	}
+	m.comparingFields[pair] = true
 	conflicts := m.findConflictsBetweenSubSelectionSets(areMutuallyExclusive, fieldA.SelectionSet, fieldB.SelectionSet)
+	delete(m.comparingFields, pair)
 	if conflicts == nil {
 		return nil
 	}
